@@ -1,7 +1,10 @@
+import NeumannModel.Paths.AllWProofs
 import NeumannModel.Paths.UnionFindProofs
+import NeumannModel.Paths.MstProofs
 import NeumannModel.Paths.TriangleProofs
 import NeumannModel.Paths.KCoreProofs
 import NeumannModel.Paths.NeighborsProofs
+import NeumannModel.Paths.AStarCfgProofs
 /-
   C18 — second half of the property theorems: the stored adjacency as the public API shows it
   (`edges_of`, `neighbors`), and the algorithm family ("component, spanning-tree, core-number and
@@ -45,6 +48,98 @@ example : neighborsApi nbExampleGraph none .out Flt.all 2 = some [3] ∧
     neighborsApi nbExampleGraph none .inc Flt.all 2 = some [1, 3] ∧
     edgesOf nbExampleGraph .out 2 = some [11, 12] ∧ edgesOf nbExampleGraph .inc 2 = some [10, 11, 12] := by decide
 
+/-! ### find_all_weighted_paths: all minimum-weight simple paths -/
+
+/-- the reported total is the weight of a real direction-respecting walk, and no walk is lighter -/
+theorem awp_total_optimal (g : Graph) (mp cap s t : Nat) (r : AllWPaths) (hnn : NonNeg g)
+    (h : findAllWeightedPaths g mp cap s t = .ok r) :
+    WWalk g s t r.total ∧ ∀ c, WWalk g s t c → r.total ≤ c :=
+  Neumann.Paths.awp_total_optimal g mp cap s t r hnn h
+
+/-- every listed path is a simple chain of existing edges from `s` to `t`, followed along their
+    direction, whose weights add up to exactly the reported (minimum) total -/
+theorem awp_paths_sound (g : Graph) (mp cap s t : Nat) (r : AllWPaths) (hnn : NonNeg g)
+    (h : findAllWeightedPaths g mp cap s t = .ok r) :
+    ∀ p, p ∈ r.paths → p.nodes.head? = some s ∧ p.nodes.getLast? = some t ∧
+      WChainOk g p.nodes p.edges r.total ∧ p.nodes.Nodup :=
+  Neumann.Paths.awp_paths_sound g mp cap s t r hnn h
+
+/-- `NegativeWeight{edge_id}` always names an existing edge with a negative weight -/
+theorem awp_negative_reported (g : Graph) (mp cap s t id : Nat)
+    (h : findAllWeightedPaths g mp cap s t = .error (.negativeWeight id)) :
+    ∃ e, e ∈ g.edges ∧ e.id = id ∧ e.w < 0 :=
+  Neumann.Paths.awp_negative_reported g mp cap s t id h
+
+/-- for existing endpoints and non-negative weights, `PathNotFound` iff no walk exists (includes fuel
+    adequacy of the loop) -/
+theorem awp_none_iff_unreachable (g : Graph) (mp cap s t : Nat) (hnn : NonNeg g)
+    (hs : g.hasNode s = true) (ht : g.hasNode t = true) :
+    findAllWeightedPaths g mp cap s t = .error .pathNotFound ↔ ¬ ∃ c, WWalk g s t c :=
+  Neumann.Paths.awp_none_iff_unreachable g mp cap s t hnn hs ht
+
+/-- it reports exactly the total `find_weighted_path` reports, and no path exactly when that does -/
+theorem awp_total_eq_dijkstra (g : Graph) (mp cap s t : Nat) (hnn : NonNeg g)
+    (hs : g.hasNode s = true) (ht : g.hasNode t = true) :
+    (findAllWeightedPaths g mp cap s t).toOption.map (·.total) = (findWeightedPath g s t).toOption.map (·.total) :=
+  Neumann.Paths.awp_total_eq_dijkstra g mp cap s t hnn hs ht
+
+/-- with `max_paths > 0` at least one path is listed, whatever `max_parents_per_node` is and even
+    when zero-weight cycles make a node its own equal-cost ancestor -/
+theorem awp_nonempty (g : Graph) (mp cap s t : Nat) (r : AllWPaths) (hnn : NonNeg g) (hmp : 0 < mp)
+    (h : findAllWeightedPaths g mp cap s t = .ok r) : r.paths ≠ [] :=
+  Neumann.Paths.awp_nonempty g mp cap s t r hnn hmp h
+
+/-- when neither cap is reached (`max_parents_per_node ≥ 2·|E|`, fewer than `max_paths` results)
+    every simple minimum-weight chain is listed -/
+theorem awp_complete (g : Graph) (mp cap s t : Nat) (r : AllWPaths) (hnn : NonNeg g)
+    (h : findAllWeightedPaths g mp cap s t = .ok r)
+    (hcap : 2 * g.edges.length ≤ cap) (hmax : r.paths.length < mp)
+    (ns es : List Nat) (hhead : ns.head? = some s) (hlast : ns.getLast? = some t)
+    (hchain : WChainOk g ns es r.total) (hnd : ns.Nodup) :
+    { nodes := ns, edges := es } ∈ r.paths :=
+  Neumann.Paths.awp_complete g mp cap s t r hnn h hcap hmax ns es hhead hlast hchain hnd
+
+/-- non-vacuity: the diamond 0→1→3, 0→2→3 (weight 2) beside the direct edge of weight 5; `max_paths = 1`
+    truncates, `max_parents_per_node = 1` keeps one parent; an unreachable pair; a negative edge -/
+example : NonNeg awExGraph := awExGraph_nonneg
+example : (findAllWeightedPaths awExGraph 10 10 0 3).toOption.map (fun r => (r.total, r.paths.length)) = some (2, 2) ∧
+    (findAllWeightedPaths awExGraph 1 10 0 3).toOption.map (fun r => r.paths.length) = some 1 ∧
+    (findAllWeightedPaths awExGraph 10 1 0 3).toOption.map (fun r => r.paths.length) = some 1 ∧
+    (findAllWeightedPaths awExGraph 10 10 0 4).toOption.map (fun r => r.total) = none := by decide
+
+/-! ### astar_path under a config (`edge_type`, no `weight_property`) -/
+
+/-- the edges the configured search sees: those of the requested type, each weighing 1 when no weight
+    property is configured -/
+theorem astar_view_edges (g : Graph) (etype : Option Nat) (weighted : Bool) (e' : Edge) :
+    e' ∈ (astarView g etype weighted).edges ↔
+      ∃ e, e ∈ g.edges ∧ typeOk etype e = true ∧ e' = (if weighted then e else { e with weight := none }) :=
+  Neumann.Paths.mem_astarView_edges g etype weighted e'
+
+/-- the configured A* answers the weight (the hop count when unweighted) of a real walk over edges of
+    the requested type, in the requested direction -/
+theorem astar_cfg_cost_is_walk (g : Graph) (etype : Option Nat) (weighted : Bool) (dir : Dir) (s t : Nat) (c : Int)
+    (hnn : weighted = true → NonNeg g) (h : astarCostCfg g etype weighted dir s t = some c) :
+    AWalk (astarView g etype weighted) dir s t c :=
+  Neumann.Paths.astar_cfg_cost_is_walk g etype weighted dir s t c hnn h
+
+/-- no such walk is lighter (shorter) -/
+theorem astar_cfg_cost_optimal (g : Graph) (etype : Option Nat) (weighted : Bool) (dir : Dir) (s t : Nat) (c : Int)
+    (hnn : weighted = true → NonNeg g) (h : astarCostCfg g etype weighted dir s t = some c) :
+    ∀ c', AWalk (astarView g etype weighted) dir s t c' → c ≤ c' :=
+  Neumann.Paths.astar_cfg_cost_optimal g etype weighted dir s t c hnn h
+
+theorem astar_cfg_none_iff_unreachable (g : Graph) (etype : Option Nat) (weighted : Bool) (dir : Dir) (s t : Nat)
+    (hnn : weighted = true → NonNeg g) (hst : s ≠ t) (hs : g.hasNode s = true) (ht : g.hasNode t = true) :
+    astarCostCfg g etype weighted dir s t = none ↔ ¬ ∃ c, AWalk (astarView g etype weighted) dir s t c :=
+  Neumann.Paths.astar_cfg_none_iff_unreachable g etype weighted dir s t hnn hst hs ht
+
+/-- non-vacuity on the typed example graph (1-2, 2-3 of type 0; 4-5 of type 1): two hops 1 ⇝ 3 over
+    type 0, nothing over type 1 -/
+example : astarCostCfg ufExampleGraph (some 0) false .out 1 3 = some 2 ∧
+    astarCostCfg ufExampleGraph (some 1) false .out 1 3 = none ∧
+    astarCostCfg ufExampleGraph (some 1) true .both 5 4 = some 1 := by decide
+
 /-! ### connected_components (union-find with rank and path compression) -/
 
 /-- every node gets exactly one label, in node order -/
@@ -67,6 +162,53 @@ theorem components_label_linked (g : Graph) (etype : Option Nat) (u l : Nat)
 /-- non-vacuity: edges 1-2, 2-3 of type 0 and 4-5 of type 1 -/
 example : connectedComponents ufExampleGraph none = [(1, 1), (2, 1), (3, 1), (4, 4), (5, 4)] ∧
     connectedComponents ufExampleGraph (some 0) = [(1, 1), (2, 1), (3, 1), (4, 4), (5, 5)] := by decide
+
+/-! ### minimum_spanning_tree (Kruskal over the union-find) -/
+
+/-- for whatever order the engine's hash-map scan delivers the edges in (`order`, any permutation of
+    the edges) and either setting of `compute_forest`: the accepted edges are edges of the graph,
+    join exactly the node pairs the whole graph joins and contain no cycle; `total_weight` is their
+    weight and `tree_count` the number of connected components -/
+theorem mst_spanning_forest (g : Graph) (forest : Bool) (order : List Edge) (r : MstRes)
+    (hperm : order.Perm g.edges) (hend : EndpointsExist g) (hn : NodesUnique g) (he : EdgesUnique g)
+    (h : mstOf g forest order = some r) :
+    Spans g r.edges ∧ IsForest r.edges ∧ r.total = sumW r.edges ∧ r.trees + r.edges.length = g.nodes.length :=
+  Neumann.Paths.mst_spanning_forest g forest order r hperm hend hn he h
+
+/-- no spanning forest of the graph is lighter (negative weights included) -/
+theorem mst_minimal_forest (g : Graph) (forest : Bool) (order : List Edge) (r : MstRes)
+    (hperm : order.Perm g.edges) (hend : EndpointsExist g) (hn : NodesUnique g)
+    (h : mstOf g forest order = some r) :
+    ∀ F, Spans g F → IsForest F → r.total ≤ sumW F :=
+  Neumann.Paths.mst_minimal_forest g forest order r hperm hend hn h
+
+/-- the same over the larger class of edge lists that are acyclic in their listed order -/
+theorem mst_minimal (g : Graph) (forest : Bool) (order : List Edge) (r : MstRes)
+    (hperm : order.Perm g.edges) (hend : EndpointsExist g) (hn : NodesUnique g)
+    (h : mstOf g forest order = some r) :
+    ∀ F, Spans g F → SeqAcyclic F → r.total ≤ sumW F :=
+  Neumann.Paths.mst_minimal g forest order r hperm hend hn h
+
+/-- the scan order and `compute_forest` change neither the total, nor the tree count, nor the
+    ascending list of accepted weights (what the correspondence run compares) -/
+theorem mst_scan_order_irrelevant (g : Graph) (forest forest' : Bool) (order order' : List Edge) (r r' : MstRes)
+    (hperm : order.Perm g.edges) (hperm' : order'.Perm g.edges) (hend : EndpointsExist g) (hn : NodesUnique g)
+    (h : mstOf g forest order = some r) (h' : mstOf g forest' order' = some r') :
+    r.total = r'.total ∧ r.trees = r'.trees ∧ r.edges.map Edge.w = r'.edges.map Edge.w :=
+  Neumann.Paths.mst_scan_order_irrelevant g forest forest' order order' r r' hperm hperm' hend hn h h'
+
+theorem mst_none_iff (g : Graph) (forest : Bool) (order : List Edge) : mstOf g forest order = none ↔ g.nodes = [] :=
+  Neumann.Paths.mst_none_iff g forest order
+
+/-- non-vacuity: edges 1-2 (3), 2-3 (−1), 1-3 (3), 3-4 (no weight = 1), isolated node 5: total 3, two
+    trees, weights −1, 1, 3 — with either edge of weight 3, depending on the scan order -/
+example : EndpointsExist mstExampleGraph ∧ NodesUnique mstExampleGraph ∧ EdgesUnique mstExampleGraph := by
+  refine ⟨?_, by unfold NodesUnique; decide, by unfold EdgesUnique; decide⟩
+  intro e he
+  simp only [mstExampleGraph, List.mem_cons, List.not_mem_nil, or_false] at he
+  rcases he with rfl | rfl | rfl | rfl <;> decide
+example : (minimumSpanningTree mstExampleGraph true).map (fun r => (r.total, r.trees, r.edges.map Edge.id)) = some (3, 2, [2, 4, 1]) ∧
+    (mstOf mstExampleGraph false mstExampleGraph.edges.reverse).map (fun r => (r.total, r.trees, r.edges.map Edge.id)) = some (3, 2, [2, 4, 3]) := by decide
 
 /-! ### kcore_decomposition (peeling with a lazy min-heap) -/
 
